@@ -347,6 +347,7 @@ pub fn small_layout(internal: u8, depth: u8) -> Layout {
         coords: [-1_800_000_000, -850_000_000, 1_800_000_000, 850_000_000, 21, -21],
         zero_counters: 0,
         overlap_prefixes: false,
+        inline: 0,
     }
 }
 
